@@ -82,7 +82,8 @@ def models(max_features=13):
 
 BIG_SPECS = (('wide', 300, (300, 300)), ('wide', 257, (257, 257)), ('wide', 300, (1, 1)), ('wide', 300, (1, 300)),
              ('wide', 1000, (0, 1)), ('wide', 260, (2, 259)), ('chain', 600, (1, 1)), ('chain', 600, (0, 1)), ('comb', 250, None),
-             ('fullgroup-with-subchain', 258, None), ('pow-group', 16, (2, 4)), ('pow-group', 14, (1, 3)), ('pow-group', 18, (3, 4)))
+             ('fullgroup-with-subchain', 258, None), ('pow-group', 16, (2, 4)), ('pow-group', 14, (1, 3)), ('pow-group', 18, (3, 4)),
+             ('many-relations', 300, (1, 1)), ('many-relations', 300, (0, 1)))
 
 
 @functools.lru_cache(maxsize=32)
@@ -101,6 +102,13 @@ def big_build(spec):
         a, b, kids = root[1][0]
         kids = (F(kids[0][0], [R(1, 1, [F('Sub1', [R(1, 1, [F('Sub2')])])])]),) + kids[1:]
         return M(F(root[0], [R(a, b, kids)]))
+    if kind == 'many-relations':
+        # n single-child relations under one feature plus an alternative, an or- and a [2..2] group among them
+        rels = [R(card[0], card[1], [F('S%d' % i)]) for i in range(n)]
+        rels.insert(n // 2, R(1, 1, [F('Al1'), F('Al2'), F('Al3')]))
+        rels.insert(3, R(1, 2, [F('Or1'), F('Or2')]))
+        rels.append(R(2, 2, [F('Fg1'), F('Fg2', [R(1, 1, [F('Fg2a')])])]))
+        return M(F('Rt', rels))
     if kind == 'pow-group':
         # [a..b] over 4 children, each an or-group of n leaves: every child has 2**n - 1 configurations
         kids = [F('G%d' % g, [R(1, n, [F('G%dL%d' % (g, i)) for i in range(n)])]) for g in range(4)]
@@ -137,8 +145,11 @@ def deep_trees(names=('x', 'y', 'z')):
             if a != b:
                 out.append((a, (b, x, (a, y, z)), (b, (a, x, z), y)))
     out.append(('NOT', ('NOT', ('NOT', x, None), None), None))
+    nn = lambda t: ('NOT', ('NOT', t, None), None)  # noqa: E731
+    for op in ('EXCLUDES', 'REQUIRES', 'IMPLIES', 'OR', 'AND', 'EQUIVALENCE', 'XOR'):
+        out += [(op, x, nn(y)), (op, nn(x), y), (op, x, ('NOT', nn(y), None)), (op, nn(x), nn(y)), (op, x, nn(('AND', y, z)))]
     # the documented simple forms with one operand replaced by a compound expression
-    comp = [('AND', y, z), ('OR', y, z), ('NOT', y, None), ('IMPLIES', y, z)]
+    comp = [('AND', y, z), ('OR', y, z), ('NOT', y, None), ('IMPLIES', y, z), ('REQUIRES', y, z), ('EXCLUDES', y, z)]
     for c in comp:
         n = ('NOT', c, None)
         out += [('REQUIRES', x, c), ('REQUIRES', c, x), ('IMPLIES', x, n), ('IMPLIES', c, ('NOT', x, None)), ('REQUIRES', x, n),
